@@ -618,6 +618,18 @@ def run(ctx):
                                  "failed or a call returned 0 in the implementation trace"})
     if (not allok or ctx.failures) and not ctx.violations:
         search(ctx, exes)
+    # the channel and signal models run on the T1 machine (no migration, no descriptor waits): whole-runtime programs of
+    # channel sends/receives and multi-signal waits mixed with the OTHER kinds of suspension a fiber can come from
+    # (descriptor wait ended by close, sleep, join), judged by the runtime oracle
+    from vf.props import C01
+    def _after_other_waits(rng):
+        progs = [[(rng.choice([12, 12, 18, 10, 26, 1]), rng.randint(0, 1)), (rng.choice([14, 14, 19, 13]), rng.randint(0, 1))] *
+                 rng.randint(1, 2) for _ in range(rng.randint(2, 4))]
+        progs.append([(rng.choice([13, 20, 13, 1]), rng.randint(0, 3)) for _ in range(rng.randint(2, 6))])
+        rng.shuffle(progs)
+        return progs
+    C01.runtime_layer(ctx, "chan", "channels and signals on the whole runtime", [13, 14, 13, 14, 19, 20, 12, 18, 1, 10],
+                      quick_n=300, nks=(2, 3, 3, 4), seedoff=11, progs_fn=_after_other_waits)
     core.init_contract(ctx, ["fiber_signal", "fiber_bounded_channel", "fiber_unbounded_channel", "fiber_unbounded_sp_channel", "fiber_multi_channel"])  # rt/h_init.c: real init on dirty memory
     core.finish(ctx, extra_assumptions=ASSUME)
 
@@ -646,6 +658,9 @@ def search(ctx, exes):
 def replay(ctx, payload):
     if payload.get("harness") == "h_init":
         return core.replay_init(ctx, payload)
+    if payload.get("harness") == "kernel":
+        from vf.props import C01
+        return C01.replay(ctx, payload)
     label = str(payload.get("harness", ""))
     catchall = label.endswith("+catchall")
     label = label[:-len("+catchall")] if catchall else label
